@@ -23,7 +23,6 @@ import (
 	"strconv"
 	"strings"
 	"testing"
-	"unsafe"
 
 	"github.com/sourcegraph/zoekt"
 	"github.com/sourcegraph/zoekt/ignore"
@@ -263,21 +262,11 @@ func vfC14SlabPart(r *vfRand, n int) {
 			for j := range b {
 				b[j] = byte(k + 1)
 			}
-			inSlab, off := false, 0
-			if sz == 0 {
-				inSlab, off = sz <= capN, len(s.buf)
-			} else if len(s.buf) > 0 || cap(s.buf) > 0 {
-				base := uintptr(unsafe.Pointer(unsafe.SliceData(s.buf[:cap(s.buf)])))
-				ptr := uintptr(unsafe.Pointer(unsafe.SliceData(b)))
-				if ptr >= base && ptr < base+uintptr(cap(s.buf)) {
-					inSlab, off = true, int(ptr-base)
-				}
-			}
 			if len(b) != sz || cap(b) != sz {
 				vfOracleFail("slab:len-cap", "alloc(n) does not return a slice with len = cap = n", map[string]any{"cap": capN, "n": sz, "len": len(b), "capOf": cap(b)})
 			}
 			sizes = append(sizes, strconv.Itoa(sz))
-			obs = append(obs, cTuple(cBool(inSlab), cN(uint64(off)), cN(uint64(len(s.buf)))))
+			obs = append(obs, cPair(cN(uint64(len(b))), cN(uint64(cap(b)))))
 			slices = append(slices, b)
 			if r.Chance(25) && len(slices) > 0 { // appending to a returned slice must not clobber a neighbour
 				v := slices[r.Intn(len(slices))]
@@ -568,6 +557,38 @@ func vfC14GitPart(t *testing.T, r *vfRand, n int, tmp string) {
 		// ---- write the objects with git plumbing
 		gitlink := "1234567890123456789012345678901234567890"
 		shaOf := map[string]string{}
+		{ // all distinct blobs with one `git hash-object -w --stdin-paths`
+			var contents []string
+			seen := map[string]bool{}
+			for _, bn := range branchNames {
+				var ps []string
+				for p := range trees[bn] {
+					ps = append(ps, p)
+				}
+				sort.Strings(ps)
+				for _, p := range ps {
+					if e := trees[bn][p]; e.Mode != "160000" && !seen[string(e.Content)] {
+						seen[string(e.Content)] = true
+						contents = append(contents, string(e.Content))
+					}
+				}
+			}
+			if len(contents) > 0 {
+				var paths bytes.Buffer
+				for j, c := range contents {
+					fn := filepath.Join(caseDir, "blob-"+strconv.Itoa(j))
+					os.WriteFile(fn, []byte(c), 0o644)
+					paths.WriteString(fn + "\n")
+				}
+				shas := strings.Fields(vfC14Git(t, repo, paths.Bytes(), nil, "hash-object", "-w", "--stdin-paths"))
+				if len(shas) != len(contents) {
+					t.Fatalf("hash-object returned %d ids for %d blobs", len(shas), len(contents))
+				}
+				for j, c := range contents {
+					shaOf[c] = shas[j]
+				}
+			}
+		}
 		for _, bn := range branchNames {
 			var ps []string
 			for p := range trees[bn] {
@@ -579,11 +600,7 @@ func vfC14GitPart(t *testing.T, r *vfRand, n int, tmp string) {
 				e := trees[bn][p]
 				sha := gitlink
 				if e.Mode != "160000" {
-					k := string(e.Content)
-					if shaOf[k] == "" {
-						shaOf[k] = strings.TrimSpace(vfC14Git(t, repo, e.Content, nil, "hash-object", "-w", "--stdin"))
-					}
-					sha = shaOf[k]
+					sha = shaOf[string(e.Content)]
 				}
 				fmt.Fprintf(&info, "%s %s\t%s\x00", e.Mode, sha, p)
 			}
@@ -642,23 +659,40 @@ func vfC14GitPart(t *testing.T, r *vfRand, n int, tmp string) {
 		idOf := map[string]int{}
 		var coqBranches []string
 		nEntries, nGitlinks, nIgnored := 0, 0, 0
+		type lsEntry struct{ mode, typ, sha, path string }
+		lsOf := map[string][]lsEntry{}
+		var allShas bytes.Buffer
 		for _, bn := range branchNames {
 			out := vfC14Git(t, repo, nil, nil, "ls-tree", "-r", "-t", "-z", "refs/heads/"+bn)
-			type lsEntry struct{ mode, typ, sha, path string }
-			var ents []lsEntry
 			for _, rec := range strings.Split(out, "\x00") {
 				if rec == "" {
 					continue
 				}
 				meta, p, _ := strings.Cut(rec, "\t")
 				f := strings.Fields(meta)
-				ents = append(ents, lsEntry{f[0], f[1], f[2], p})
+				lsOf[bn] = append(lsOf[bn], lsEntry{f[0], f[1], f[2], p})
+				if f[1] == "blob" {
+					allShas.WriteString(f[2] + "\n")
+				}
 			}
+		}
+		blobOf := map[string][]byte{} // one `git cat-file --batch` for all blobs; "<sha> blob <size>\n<content>\n"
+		if allShas.Len() > 0 {
+			out := []byte(vfC14Git(t, repo, allShas.Bytes(), nil, "cat-file", "--batch"))
+			for len(out) > 0 {
+				nl := bytes.IndexByte(out, '\n')
+				f := strings.Fields(string(out[:nl]))
+				sz, _ := strconv.Atoi(f[2])
+				blobOf[f[0]] = append([]byte(nil), out[nl+1:nl+1+sz]...)
+				out = out[nl+1+sz+1:]
+			}
+		}
+		for _, bn := range branchNames {
+			ents := lsOf[bn]
 			matcher := &ignore.Matcher{}
 			for _, e := range ents {
 				if e.path == ".sourcegraph/ignore" && e.typ == "blob" {
-					b := []byte(vfC14Git(t, repo, nil, nil, "cat-file", "blob", e.sha))
-					matcher, err = ignore.ParseIgnoreFile(bytes.NewReader(b))
+					matcher, err = ignore.ParseIgnoreFile(bytes.NewReader(blobOf[e.sha]))
 					if err != nil {
 						t.Fatalf("case %d: generator produced an invalid ignore pattern: %v", i, err)
 					}
@@ -682,7 +716,7 @@ func vfC14GitPart(t *testing.T, r *vfRand, n int, tmp string) {
 				if e.typ == "blob" {
 					if _, ok := idOf[e.sha]; !ok {
 						idOf[e.sha] = len(idOf) + 1
-						contentOf[e.sha] = []byte(vfC14Git(t, repo, nil, nil, "cat-file", "blob", e.sha))
+						contentOf[e.sha] = blobOf[e.sha]
 					}
 					id = idOf[e.sha]
 					nEntries++
